@@ -30,7 +30,14 @@ DTYPES = ("float32", "float64", "int64", "int32")
 
 # ------------------------------------------------------------------ independent statement
 
+_FACTOR_MEMO = {}
+
+
 def _factor(x):
+    """Prime exponents of the integer x >= 1 by trial division (integer arithmetic only)."""
+    x0 = x
+    if x0 in _FACTOR_MEMO:
+        return _FACTOR_MEMO[x0]
     f, p = {}, 2
     while p * p <= x:
         while x % p == 0:
@@ -39,6 +46,8 @@ def _factor(x):
         p += 1 if p == 2 else 2
     if x > 1:
         f[x] = f.get(x, 0) + 1
+    if len(_FACTOR_MEMO) < 200000:
+        _FACTOR_MEMO[x0] = f
     return f
 
 
@@ -560,6 +569,209 @@ def _rand_case(rnd, tier):
     return _Ctx(entry, dtype, goals, rows, distinct)
 
 
+# ------------------------------------------------------------------ sub-family: large exponents, large primes, many primes
+# (*_per_prime_factor goals; bug class: exponents obtained through floating-point logarithms, capped division rounds,
+# values narrowed to float32 before factorisation, prime columns derived from the column maximum only)
+
+_BIGP = (2, 3, 5, 7, 11, 13, 17, 19, 23)
+_L31, _L53 = 2 ** 31, 2 ** 53
+_PRIMORIAL = tuple(itertools.accumulate(_BIGP, lambda a, b: a * b))     # 2, 6, 30, ..., 223092870
+_BP_DTYPES = ("int64", "float64", "int32", "float32")
+
+
+def _kmax(p):
+    k = 0
+    while p ** (k + 1) < _L31:
+        k += 1
+    return k
+
+
+_BP_PK = tuple((p, k) for p in _BIGP for k in range(1, _kmax(p) + 1))     # 109 pairs: 2**30, 3**19, 5**13, ..., 23**6
+
+
+def _bp_fits(v, dtype):
+    """The integer v is an admissible entry of a prime-factor column of this dtype (held exactly, within the stated magnitudes)."""
+    if v < 1:
+        return False
+    if dtype == "int32":
+        return v < _L31
+    if v > _L53:
+        return False
+    if dtype == "float32":
+        return int(np.float32(v)) == v
+    return True
+
+
+def _bp_dtype(goals, rows, start):
+    """First dtype of the cycle (from position `start`) that holds every prime-factor entry exactly; int64 always does."""
+    vals = [v for row in rows for v, g in zip(row, goals) if g in PPF]
+    for t in range(4):
+        dt = _BP_DTYPES[(start + t) % 4]
+        if all(_bp_fits(v, dt) for v in vals):
+            return dt
+    return "int64"
+
+
+def _bp_next(p):
+    return _BIGP[(_BIGP.index(p) + 1) % len(_BIGP)]
+
+
+def _bp_mexp(base, q, lim=_L53):
+    """Largest m >= 0 with q**m < 2**31 and base * q**m <= lim."""
+    m = 0
+    while q ** (m + 1) < _L31 and base * q ** (m + 1) <= lim:
+        m += 1
+    return m
+
+
+def _bp_structured(p, k, g):
+    """Matrices around the power p**k for goal g: (goals, rows).  Each puts p**k next to p**(k-1) and p**(k+1) and to products of two
+    prime powers in a way that makes the outcome depend on the exact exponent of each."""
+    lo, at, hi = p ** (k - 1), p ** k, p ** (k + 1)
+    q = _bp_next(p)
+    mn = g.startswith("min")
+    other = PPF[1] if mn else PPF[0]
+    m = _bp_mexp(at, q)
+    out = []
+    # exponent against a plain column: anti-chain exactly when the three exponents are told apart
+    out.append(([g, "min"], [[at, 1], [lo, 2 if mn else 0], [hi, 0 if mn else 2]]))
+    out.append(([g, "max"], [[hi, 2 if mn else 0], [at, 1], [lo, 0 if mn else 2]]))
+    # a single column: pure powers next to a product with a second prime
+    out.append(([g], [[at], [lo * q], [hi]]))
+    out.append(([g], [[hi], [lo * q], [at], [lo]]))
+    if m >= 1:
+        rows = [[at * q ** m], [hi * q ** (m - 1)], [at]]
+        if q ** (m + 1) < _L31 and lo * q ** (m + 1) <= _L53:
+            rows.append([lo * q ** (m + 1)])
+        out.append(([g], rows))
+    # the column maximum is exactly p**k; a smaller entry carries a prime that the maximum does not have
+    if p > 2:
+        c = lo * max(r for r in _BIGP if r < p)
+    else:
+        c = 3 * p ** (k - 2) if k >= 2 else 1
+    out.append(([g], [[c], [at], [lo]]))
+    out.append(([g], [[at], [c]]))
+    out.append(([g, "diff"], [[c, 0], [at, 0], [lo, 1], [1, 1], [at, 1], [c, 1]]))
+    # constant prime-factor column holding the large power
+    out.append(([g, "min"], [[at, 2], [at, 1], [at, 1]]))
+    out.append(([g, "diff"], [[at, 0], [at, 0], [at, 1]]))
+    # two prime-factor columns, the second over powers of another prime
+    m2 = max(1, _kmax(q) - (k % 3))
+    qs = [q ** m2, q ** (m2 + 1), q ** (m2 - 1)]
+    out.append(([g, g], [[at, qs[0]], [lo, qs[1]], [hi, qs[2]]]))
+    out.append(([g, other], [[at, qs[0]], [lo, qs[1]], [hi, qs[2]], [lo * q, qs[0]]]))
+    return [(goals, [row for row in rows if all(v <= _L53 for v in row)]) for goals, rows in out]
+
+
+def _bp_primorial_cases():
+    P9 = _PRIMORIAL[-1]
+    co = [P9 // p for p in _BIGP]                       # nine values, pairwise incomparable in their nine exponents
+    for g in PPF:
+        yield [g], [[v] for v in _PRIMORIAL]
+        yield [g], [[v] for v in reversed(_PRIMORIAL)]
+        yield [g], [[v] for v in co]
+        yield [g], [[v] for v in co + [P9]]
+        yield [g], [[v] for v in [P9] + co[::-1] + [1]]
+        yield [g], [[1]] + [[v] for v in co]
+        yield [g, "min"], [[v, i % 3] for i, v in enumerate(_PRIMORIAL)]
+        yield [g, "max"], [[v, i % 3] for i, v in enumerate(_PRIMORIAL)]
+        yield [g, "diff"], [[v, i % 2] for i, v in enumerate(co + [P9, 1, P9, 1])]
+        yield [g], [[P9], [2 ** 30], [3 ** 19], [23 ** 6], [1], [2 * 23 ** 6], [9699690 * 2 ** 7]]
+        yield [g], [[P9], [P9], [P9]]
+        yield [g], [[1], [1], [1], [1]]
+        yield [g, "min"], [[P9, 1], [P9, 0], [P9, 1]]
+        yield [g, "max"], [[1, 1], [1, 0], [1, 1], [1, 2]]
+        yield [g, PPF[0]], [[P9, 1], [P9 // 2, 1], [P9 // 23, 1]]
+        yield [g, PPF[1]], [[P9, 2 ** 30], [P9 // 2, 2 ** 30], [P9 // 23, 2 ** 30], [P9, 2 ** 30]]
+        yield [g, g], [[_PRIMORIAL[i], _PRIMORIAL[8 - i]] for i in range(9)]
+        # every ordered pair over a set of values with 0..9 distinct primes
+        vals = (1, 2, 30, 30030, 9699690, P9, P9 // 2, P9 // 23, 2 ** 30, 2 * 3 ** 18)
+        for a in vals:
+            for b in vals:
+                yield [g], [[a], [b]]
+
+
+def _bp_random(rnd):
+    d = rnd.choice((1, 1, 2, 2, 3))
+    n = rnd.randint(2, 14)
+    goals = [rnd.choice(PPF)] + [rnd.choices(SIMPLE + PPF, weights=(3, 2, 2, 2, 2))[0] for _ in range(d - 1)]
+    rnd.shuffle(goals)
+    lim = rnd.choice((_L31 - 1, _L31 - 1, _L53))
+    cols = []
+    for g in goals:
+        if g not in PPF:
+            cols.append([rnd.randint(0, 3) for _ in range(n)])
+            continue
+        p, k = rnd.choice(_BP_PK)
+        if rnd.random() < 0.5:
+            k = _kmax(p) - rnd.choice((0, 0, 1))
+        q = rnd.choice([r for r in _BIGP if r != p])
+        cap = p ** k if rnd.random() < 0.5 else lim      # cap = p**k: the column maximum is exactly that power
+        pool = {1, p ** k, p ** max(k - 1, 0), p ** max(k - 2, 0)}
+        for a in (k + 1, k, k - 1, k - 2):
+            if a < 0:
+                continue
+            for b in range(0, _kmax(q) + 1):
+                pool.add(p ** a * q ** b)
+        pool |= set(_PRIMORIAL)
+        pool |= {_PRIMORIAL[-1] // r for r in _BIGP}
+        pool = sorted(v for v in pool if v <= min(cap, lim))
+        near = [v for v in pool if v * p * p >= p ** k] or pool
+        col = [rnd.choice(near if rnd.random() < 0.75 else pool) for _ in range(n)]
+        col[rnd.randrange(n)] = p ** k
+        style = rnd.random()
+        if style < 0.12:
+            col = [col[0]] * n                                                                  # constant column
+        cols.append(col)
+    rows = [[cols[c][i] for c in range(d)] for i in range(n)]
+    if rnd.random() < 0.35:
+        for _ in range(rnd.randint(1, 3)):
+            rows.insert(rnd.randint(0, len(rows)), list(rnd.choice(rows)))
+    entry = "fast" if rnd.random() < 0.5 else "numpy"
+    distinct = True if entry == "numpy" or rnd.random() < 0.8 else False
+    return _Ctx(entry, _bp_dtype(goals, rows, rnd.randrange(4)), goals, rows, distinct)
+
+
+def _bigprime(tier, rnd):
+    """The contexts of the sub-family, in a fixed order."""
+    thorough = tier == "thorough"
+    t = 0
+    # enumerated: around every power p**k < 2**31, every ordered pair (thorough: also every triple, over two more values)
+    for p, k in _BP_PK:
+        q = _bp_next(p)
+        W = [p ** (k - 1), p ** k, p ** (k + 1), p ** (k - 1) * q]
+        if thorough:
+            m = _bp_mexp(p ** k, q)
+            W += [p ** k * q ** max(m, 1), 1]
+        for g in PPF:
+            for n in ((2, 3) if thorough else (2,)):
+                for vals in itertools.product(W, repeat=n):
+                    t += 1
+                    rows = [[v] for v in vals]
+                    dt = _bp_dtype([g], rows, t)
+                    if thorough:
+                        yield _Ctx("fast", dt, [g], rows)
+                        yield _Ctx("numpy", dt, [g], rows)
+                    else:
+                        yield _Ctx(("fast", "numpy")[t % 2], dt, [g], rows)
+            for goals, rows in _bp_structured(p, k, g):
+                t += 1
+                dt = _bp_dtype(goals, rows, t)
+                yield _Ctx("fast", dt, goals, rows)
+                yield _Ctx("numpy", dt, goals, rows)
+                if thorough or t % 4 == 0:
+                    yield _Ctx("fast", dt, goals, rows, distinct=False)
+    for goals, rows in _bp_primorial_cases():
+        t += 1
+        dt = _bp_dtype(goals, rows, t)
+        yield _Ctx("fast", dt, goals, rows)
+        yield _Ctx("numpy", dt, goals, rows)
+        if thorough:
+            yield _Ctx("fast", dt, goals, rows, distinct=False)
+    for _ in range(6000 if thorough else 400):
+        yield _bp_random(rnd)
+
+
 def _sample_text(cx):
     d = cx.describe()
     rows = d["rows"]
@@ -570,7 +782,7 @@ def _sample_text(cx):
 def _sweep(seed, tier, known, n_random=None):
     known_ids = frozenset(e.get("class_id") for e in (known or []) if e.get("status", "open") == "open")
     rnd = random.Random(int(seed) * 1000003 + (0 if tier == "quick" else 1))
-    st = {"evaluations": 0, "known_finding_hits": 0, "in_known_class_deviations": {}, "core": 0, "guidance": 0, "random": 0, "rows_max": 0}
+    st = {"evaluations": 0, "known_finding_hits": 0, "in_known_class_deviations": {}, "core": 0, "guidance": 0, "bigprime": 0, "random": 0, "rows_max": 0}
     seen, samples = set(), []
 
     def run(cx, shrink=False):
@@ -622,6 +834,14 @@ def _sweep(seed, tier, known, n_random=None):
             r = run(_Ctx("fast", dts[0], goals, rows, distinct=False))
             if r:
                 return r, st, seen, samples
+    rnd_bp = random.Random(int(seed) * 7919 + (11 if tier == "quick" else 12))
+    for i, cx in enumerate(_bigprime(tier, rnd_bp)):
+        st["bigprime"] += 1
+        r = run(cx, shrink=True)
+        if r:
+            return r, st, seen, samples
+        if i in (17, 2611) and len(samples) < 8:
+            samples.append(_sample_text(cx))
     if n_random is None:
         n_random = 1500 if tier == "quick" else 30000
     for i in range(n_random):
